@@ -55,3 +55,205 @@ Proof.
   exists [47;120;63;34;62;60;115;99;114;105;112;116;62]. split; [vm_compute; reflexivity|].
   vm_compute. discriminate.
 Qed.
+
+(* ---- html/template field escapers by context *)
+Lemma flat_map_has_false (p : N -> bool) (e : N -> bs) s :
+  (forall c, has p (e c) = false) -> has p (flat_map e s) = false.
+Proof.
+  intros H. induction s as [|c r IH]; cbn [flat_map]; [reflexivity|].
+  rewrite has_app, H, IH. reflexivity.
+Qed.
+
+Lemma tmpl_esc_safe c : has markup_byte (tmpl_esc c) = false.
+Proof. unfold tmpl_esc. destruct (c =? 43); [reflexivity|apply esc_safe]. Qed.
+
+Theorem tmpl_escape_safe s : attr_safe (tmpl_escape s) = true.
+Proof. unfold attr_safe, tmpl_escape. apply negb_true_iff. apply flat_map_has_false. exact tmpl_esc_safe. Qed.
+
+Lemma nospace_esc_safe c : has unq_break (nospace_esc c) = false.
+Proof.
+  unfold nospace_esc.
+  repeat match goal with
+  | |- context [if ?x =? ?k then _ else _] => destruct (x =? k) eqn:?; [reflexivity|]
+  end.
+  cbn [has]. unfold unq_break.
+  repeat match goal with H : (_ =? _) = false |- _ => rewrite H; clear H end.
+  reflexivity.
+Qed.
+
+Lemma nospace_esc_nonempty c : nospace_esc c <> [].
+Proof.
+  unfold nospace_esc.
+  repeat match goal with
+  | |- context [if ?x =? ?k then _ else _] => destruct (x =? k); [discriminate|]
+  end.
+  discriminate.
+Qed.
+
+Theorem nospace_escape_safe s : unq_safe (nospace_escape s) = true.
+Proof.
+  unfold unq_safe, nospace_escape. destruct s as [|c r]; [reflexivity|].
+  apply andb_true_iff. split.
+  - apply negb_true_iff. apply flat_map_has_false. exact nospace_esc_safe.
+  - cbn [flat_map]. destruct (nospace_esc c) eqn:E; [exfalso; exact (nospace_esc_nonempty c E)|reflexivity].
+Qed.
+
+Lemma markup_is_break c : markup_byte c = true -> unq_break c = true.
+Proof.
+  unfold markup_byte, unq_break.
+  destruct (c =? 34), (c =? 60), (c =? 62), (c =? 39); cbn [orb]; intros H; try discriminate;
+    repeat (rewrite ?orb_true_r; cbn [orb]); reflexivity.
+Qed.
+
+Lemma has_weaken (p q : N -> bool) s : (forall c, p c = true -> q c = true) -> has q s = false -> has p s = false.
+Proof.
+  intros PQ. induction s as [|c r IH]; cbn [has]; [reflexivity|]. intros H.
+  apply orb_false_iff in H. destruct H as [H1 H2]. rewrite (IH H2), orb_false_r.
+  destruct (p c) eqn:E; [|reflexivity]. rewrite (PQ c E) in H1. discriminate.
+Qed.
+
+Lemma unq_safe_attr_safe s : unq_safe s = true -> attr_safe s = true.
+Proof.
+  unfold unq_safe, attr_safe. intros H. apply andb_true_iff in H. destruct H as [H _].
+  apply negb_true_iff in H. apply negb_true_iff. eapply has_weaken; [exact markup_is_break|exact H].
+Qed.
+
+Theorem field_contexts_safe c s :
+  attr_safe (render_field c s) = true /\
+  (c = CtxAttrUnquoted -> unq_safe (render_field c s) = true).
+Proof.
+  split.
+  - destruct c; cbn [render_field]; try apply tmpl_escape_safe.
+    apply unq_safe_attr_safe. apply nospace_escape_safe.
+  - intros ->. apply nospace_escape_safe.
+Qed.
+
+(* the tokenizer's view: the quoted value is exactly the escaped text, whatever follows the closing quote *)
+Theorem quoted_value_is_field s rest :
+  until_quote (tmpl_escape s ++ 34 :: rest) = tmpl_escape s.
+Proof. apply until_quote_app. apply no_quote. apply tmpl_escape_safe. Qed.
+
+Lemma unq_end_is_break c : unq_end c = true -> unq_break c = true.
+Proof.
+  unfold unq_end, unq_break.
+  destruct (c =? 9), (c =? 10), (c =? 12), (c =? 13), (c =? 32), (c =? 62); cbn [orb]; intros H; try discriminate;
+    repeat (rewrite ?orb_true_r; cbn [orb]); reflexivity.
+Qed.
+
+Lemma until_unq_end_app a c b : has unq_break a = false -> unq_end c = true ->
+  until_unq_end (a ++ c :: b) = a.
+Proof.
+  intros Ha Hc. induction a as [|x a IH]; cbn [app until_unq_end].
+  - rewrite Hc. reflexivity.
+  - cbn [has] in Ha. apply orb_false_iff in Ha. destruct Ha as [H1 H2].
+    destruct (unq_end x) eqn:E; [rewrite (unq_end_is_break x E) in H1; discriminate|].
+    rewrite (IH H2). reflexivity.
+Qed.
+
+(* the unquoted value a tokenizer reads is exactly the escaped text (never empty), whatever follows *)
+Theorem unquoted_value_is_field s c rest : unq_end c = true ->
+  until_unq_end (nospace_escape s ++ c :: rest) = nospace_escape s /\ nospace_escape s <> [].
+Proof.
+  intros Hc. pose proof (nospace_escape_safe s) as H. unfold unq_safe in H.
+  apply andb_true_iff in H. destruct H as [H1 H2]. apply negb_true_iff in H1. split.
+  - apply until_unq_end_app; assumption.
+  - intros E. rewrite E in H2. discriminate.
+Qed.
+
+(* ---- responses: a response rendered as a document has no Raw segment, and the markup bytes of a
+   Raw-free body are those of its trusted text alone *)
+Lemma skeleton_app a b : skeleton (a ++ b) = skeleton a ++ skeleton b.
+Proof. unfold skeleton. apply filter_app. Qed.
+
+Lemma has_false_filter p s : has p s = false -> filter p s = [].
+Proof.
+  induction s as [|c r IH]; cbn [has filter]; intros H; [reflexivity|].
+  apply orb_false_iff in H. destruct H as [H1 H2]. rewrite H1. auto.
+Qed.
+
+Lemma escaped_skeleton s : skeleton (html_escape s) = [].
+Proof.
+  unfold skeleton. apply has_false_filter.
+  pose proof (escape_safe s) as H. unfold attr_safe in H. apply negb_true_iff in H. exact H.
+Qed.
+
+Lemma field_skeleton c s : skeleton (render_field c s) = [].
+Proof.
+  unfold skeleton. apply has_false_filter.
+  destruct (field_contexts_safe c s) as [H _]. unfold attr_safe in H. apply negb_true_iff in H. exact H.
+Qed.
+
+Theorem raw_free_skeleton l : raw_free l = true ->
+  skeleton (render l) = skeleton (render (strip l)).
+Proof.
+  unfold raw_free. rewrite negb_true_iff.
+  induction l as [|g r IH]; cbn [existsb]; intros H; [reflexivity|].
+  apply orb_false_iff in H. destruct H as [Hg Hr].
+  unfold render in *. cbn [flat_map strip filter].
+  destruct g as [t|s|c s|s]; cbn [is_raw is_trusted render_seg] in *; try discriminate.
+  - cbn [flat_map render_seg]. rewrite !skeleton_app. f_equal. apply IH. exact Hr.
+  - rewrite skeleton_app, escaped_skeleton. cbn [app]. apply IH. exact Hr.
+  - rewrite skeleton_app, field_skeleton. cbn [app]. apply IH. exact Hr.
+Qed.
+
+Lemma page_raw_free tpl tail : raw_free (page tpl tail) = true.
+Proof.
+  unfold raw_free, page. rewrite negb_true_iff, existsb_app.
+  cbn [existsb is_raw]. rewrite !orb_false_r.
+  induction tpl as [|p r IH]; cbn [flat_map existsb app is_raw]; [reflexivity|].
+  destruct (snd p); cbn [seg_of_pfield is_raw orb]; exact IH.
+Qed.
+
+Lemma digit_range n : 48 <= digit n /\ digit n <= 57.
+Proof.
+  unfold digit. assert (H : n mod 10 < 10) by (apply N.mod_upper_bound; discriminate).
+  set (m := n mod 10) in *. clearbody m. lia.
+Qed.
+
+Lemma failure_line_not_document code status msg :
+  sniffs_html (render (failure_line code status msg)) = false.
+Proof.
+  unfold failure_line, render, code_bytes. cbn [flat_map render_seg app].
+  pose proof (digit_range (code / 100)) as [A B].
+  unfold sniffs_html. cbn [skip_ws].
+  assert (W : is_ws (digit (code / 100)) = false).
+  { unfold is_ws. rewrite !orb_false_iff. repeat split; apply N.eqb_neq; lia. }
+  rewrite W. apply N.eqb_neq. lia.
+Qed.
+
+Theorem document_fields_inert admin_port accept_html code status msg tpl tail :
+  let r := failure_response admin_port accept_html code status msg (page tpl tail) in
+  rendered_as_document r = true ->
+  raw_free (r_body r) = true /\
+  skeleton (render (r_body r)) = skeleton (render (strip (r_body r))).
+Proof.
+  intros r H.
+  assert (RF : raw_free (r_body r) = true).
+  { subst r. unfold failure_response in *.
+    destruct admin_port; [cbn in H; discriminate|].
+    destruct (accept_html && (code =? 401)).
+    - cbn [r_body]. apply page_raw_free.
+    - unfold rendered_as_document in H. cbn [r_ctype r_body] in H.
+      rewrite failure_line_not_document in H. discriminate. }
+  split; [exact RF|]. apply raw_free_skeleton. exact RF.
+Qed.
+
+Theorem page_fields_inert ct tpl tail :
+  skeleton (render (r_body (mkResp ct (page tpl tail)))) =
+  skeleton (render (strip (r_body (mkResp ct (page tpl tail))))).
+Proof. cbn [r_body]. apply raw_free_skeleton. apply page_raw_free. Qed.
+
+(* the failure line declared text/html for browsers: the detail becomes markup *)
+Theorem typed_failure_refuted : exists status msg,
+  let r := failure_response_typed false true 400 status msg (page [] []) in
+  rendered_as_document r = true /\
+  skeleton (render (r_body r)) <> skeleton (render (strip (r_body r))).
+Proof.
+  exists [66;97;100], [60;105;109;103;62]. split; [reflexivity|]. vm_compute. discriminate.
+Qed.
+
+(* a Raw field inside a page (a template.HTML conversion of request text) breaks the statement as well *)
+Theorem raw_field_refuted : exists s,
+  skeleton (render [Trusted [60;98;62]; Raw s; Trusted [60;47;98;62]]) <>
+  skeleton (render (strip [Trusted [60;98;62]; Raw s; Trusted [60;47;98;62]])).
+Proof. exists [60;105;62]. vm_compute. discriminate. Qed.
